@@ -611,3 +611,11 @@ Proof.
   intros Ha Hw Hl Hn Hp Hd. induction n as [|n IH]; [reflexivity|].
   cbn [repeat concat app run]. rewrite (refuse_cycle af tags s cp e) by assumption. exact IH.
 Qed.
+
+(* ---------- a deleted pipe stays deleted across a clean restart when the registry was saved without it ---------- *)
+Theorem deleted_stays_deleted af tags s sched :
+  alive s = false -> dst (run af tags (restart_after_delete true s) sched) = dst s.
+Proof.
+  intros Ha. unfold restart_after_delete. rewrite Ha.
+  rewrite dead_run; reflexivity.
+Qed.
